@@ -172,6 +172,13 @@ func main() {
 		}
 		seed = uint64(v)
 	}
+	// the framework directory is where this binary lives (<dir>/bin/check), so that a snapshot of
+	// /verif builds and runs its own sources
+	if exe, err := os.Executable(); err == nil {
+		if d := filepath.Dir(filepath.Dir(exe)); fileExists(filepath.Join(d, "cmd", "worker", "main.go")) {
+			verifDir = d
+		}
+	}
 	if d := os.Getenv("VERIF_DIR"); d != "" {
 		verifDir = d
 	}
@@ -895,6 +902,11 @@ func main() {
 	}
 	fmt.Printf("OK property=%s held on everything explored\n", id)
 	exit(0)
+}
+
+func fileExists(p string) bool {
+	_, err := os.Stat(p)
+	return err == nil
 }
 
 func round1(f float64) float64 { return float64(int(f*10+0.5)) / 10 }
